@@ -498,6 +498,7 @@ def rule_sortkey(ctx):
 
 
 def rules(tier):
-    from . import carry
-    return [rule_hash, rule_entropy, rule_seed, rule_par, rule_sortkey,
+    from . import carry, c09
+    # the k-means|| initialiser is outside the claim: no other initialiser's arm may hand over to it
+    return [c09.rule_initdispatch, rule_hash, rule_entropy, rule_seed, rule_par, rule_sortkey,
             carry.make_accessor_rule("R-C20-accessor", {"linfa", "linfa_bayes", "linfa_clustering", "linfa_elasticnet", "linfa_ftrl", "linfa_hierarchical", "linfa_ica", "linfa_kernel", "linfa_linear", "linfa_logistic", "linfa_nn", "linfa_pls", "linfa_preprocessing", "linfa_reduction", "linfa_svm", "linfa_trees", "linfa_tsne", "linfa_datasets"}, 80)]
